@@ -7,6 +7,15 @@ import sys, os, subprocess, json, shutil, re, time
 pid, sdir, idx, wt = sys.argv[1], sys.argv[2], sys.argv[3], sys.argv[4]
 extra = sys.argv[5:]
 tags = os.environ.get("SEED_TAGS", "")   # e.g. binary_log: the demo needs it, and the suite is run under it as well
+off = int(os.environ.get("SEED_IDX_OFFSET", "0"))   # second-round seeds are stored as <ID>-3, <ID>-4
+_notes = os.path.join(sdir, f"notes{idx}.md")
+_head = open(_notes).read()[:600] if os.path.exists(_notes) else ""
+_m = re.search(r"TAGS:\s*`?(\w+)", _head)
+if _m and not tags:
+    tags = _m.group(1)
+_m = re.search(r"DROPIN:\s*`?([\w/.-]+:[^\s`]+)", _head)
+if _m and not os.environ.get("SEED_DROPIN"):
+    os.environ["SEED_DROPIN"] = _m.group(1)
 tagarg = f"-tags {tags} " if tags else ""
 env = dict(os.environ, GOFLAGS="-mod=mod", GOPROXY="off", GOSUMDB="off", GOTOOLCHAIN="local")
 def sh(cmd, cwd=None, timeout=1800, e=env):
@@ -14,8 +23,8 @@ def sh(cmd, cwd=None, timeout=1800, e=env):
     return p.returncode, p.stdout
 patch = os.path.join(sdir, f"patch{idx}.diff")
 demo = os.path.join(sdir, f"demo{idx}")
-out = os.path.join("/verif/seeded", f"{pid}-{idx}")
-meta = dict(property=pid, tags=tags, source=f"independent sub-agent given only the property text and a scratch worktree", index=int(idx))
+out = os.path.join("/verif/seeded", f"{pid}-{int(idx) + off}")
+meta = dict(property=pid, tags=tags, source=f"independent sub-agent given only the property text and a scratch worktree", index=int(idx) + off, round=(2 if off else 1))
 sh("git checkout -q -- . && git clean -fdq", cwd=wt)
 rc, o = sh(f"git apply --check {patch}", cwd=wt)
 if rc != 0:
@@ -73,5 +82,5 @@ if os.path.exists(notes):
 meta["what_was_run"] = [f"git -C <worktree> apply patch.diff", "go build ./... && go test -vet=off -count=1 ./... (only the journald baseline failure allowed)",
                         f"demo: go test -count=1 {tagarg}./... with and without the change", f"VERIF_REPO=<worktree> bin/check {' '.join([pid]+extra)}"]
 json.dump(meta, open(os.path.join(out, "meta.json"), "w"), indent=1)
-print(json.dumps(dict(id=f"{pid}-{idx}", confirmed=confirmed, suite=meta["suite_with_change"], demo_without=rc0, demo_with=rc1,
+print(json.dumps(dict(id=f"{pid}-{int(idx) + off}", confirmed=confirmed, suite=meta["suite_with_change"], demo_without=rc0, demo_with=rc1,
                       checks={k: (v["detected"], v["lines"][:3]) for k, v in results.items()}), indent=1)[:3000])
